@@ -5,6 +5,7 @@ package c01
 import (
 	"context"
 	"fmt"
+	"math"
 	"runtime"
 	"strings"
 	"sync"
@@ -307,6 +308,11 @@ func schedCase(k *engine.Case) {
 	kinds := mapKinds()
 	mkd := kinds[r.Intn(len(kinds))]
 	ratio := []int{1, 2, 3, 10}[r.Intn(4)]
+	if r.Intn(12) == 0 {
+		// "every rwRatio >= 1": also ratios near the top of int (token arithmetic must not overflow)
+		ratio = []int{math.MaxInt, math.MaxInt - 1, math.MaxInt/2 + 2, math.MaxInt/2 + 1, math.MaxInt32, 1 << 40}[r.Intn(6)]
+		k.Count("extreme_ratio_cases", 1)
+	}
 	nkeys := 1 + r.Intn(3)
 	if r.Intn(3) == 0 {
 		nkeys = 1
